@@ -47,6 +47,10 @@ var (
 )
 
 func c08startNode(suite suites.Suite, kp *key.Pair) (*c08node, error) {
+	return c08startNodeOpt(suite, kp, false)
+}
+
+func c08startNodeOpt(suite suites.Suite, kp *key.Pair, unauthOk bool) (*c08node, error) {
 	id := network.NewServerIdentity(kp.Public, network.NewTLSAddress("127.0.0.1:0"))
 	id.SetPrivate(kp.Private)
 	host, err := network.NewTCPHost(id, suite)
@@ -60,6 +64,7 @@ func c08startNode(suite suites.Suite, kp *key.Pair) (*c08node, error) {
 	id.Address = network.NewTLSAddress("127.0.0.1:" + port)
 	r := network.NewRouter(id, host)
 	r.Quiet = true
+	r.UnauthOk = unauthOk
 	r.RegisterProcessorFunc(c08msgType, func(env *network.Envelope) error {
 		m, ok := env.Msg.(*C08Msg)
 		if !ok {
@@ -101,6 +106,26 @@ func c08node0(suite string) *c08node {
 		panic(err)
 	}
 	c08honest[suite] = n
+	return n
+}
+
+// the long-lived honest node of a suite whose router accepts unauthenticated (plain TCP) peers:
+// Router.UnauthOk, as set by the simulation platform on every server
+var c08honestU = map[string]*c08node{}
+
+func c08nodeU(suite string) *c08node {
+	c08node0(suite)
+	c08mu.Lock()
+	defer c08mu.Unlock()
+	if n, ok := c08honestU[suite]; ok {
+		return n
+	}
+	s := suites.MustFind(c08suiteName[suite])
+	n, err := c08startNodeOpt(s, key.NewKeyPair(s), true)
+	if err != nil {
+		panic(err)
+	}
+	c08honestU[suite] = n
 	return n
 }
 
@@ -273,6 +298,9 @@ func c08exec(c *h.Ctx, cs *h.Case) {
 
 func c08handshake(d c08desc, cs *h.Case) (string, string) {
 	hn := c08node0(d.suite)
+	if d.unauth {
+		hn = c08nodeU(d.suite)
+	}
 	w := c08newWorld(d.suite, hn.kp)
 	tok := fmt.Sprintf("t%d", atomic.AddInt64(&c08tokens, 1))
 	ch := make(chan kyber.Point, 4)
@@ -627,7 +655,35 @@ func c08gen(c *h.Ctx, yield func(*h.Case)) {
 		c.Count("class=retry")
 		yield(&h.Case{Class: "retry:early", Ops: []string{l}})
 	}
+	// two handshakes with one listener that overlap; a client with a session cache reconnects (round 7)
+	c08interleaveGen(c, yield)
+	c08resumeGen(c, yield)
 	suitesL := []string{"ed", "g1", "g2"}
+	// the configuration dimension UnauthOk (round 7): the rows about the declared identity, and the honest
+	// ones, against a router that accepts unauthenticated plain-TCP peers - over TLS nothing may change
+	for _, suite := range suitesL {
+		for _, tlsv := range []string{"12", "13"} {
+			if !c.Thorough() && (suite != "ed" || tlsv == "12") && !(suite == "g2" && tlsv == "13") {
+				continue
+			}
+			for _, rw := range rows {
+				if !(strings.HasPrefix(rw.name, "identity-") || strings.HasPrefix(rw.name, "honest") || strings.HasPrefix(rw.name, "decoy-") ||
+					rw.name == "proof-missing" || rw.name == "proof-stale-nonce" || rw.name == "claims-honest-nodes-own-key") {
+					continue
+				}
+				for _, role := range []string{"accept", "dial"} {
+					if role == "dial" && !strings.HasPrefix(rw.name, "honest") {
+						continue
+					}
+					if d, ok := apply(rw, role, suite, tlsv); ok {
+						d.unauth = true
+						c.Count("unauthok=true")
+						emit("unauth:"+rw.name, d)
+					}
+				}
+			}
+		}
+	}
 	for _, suite := range suitesL {
 		for _, role := range []string{"dial", "accept"} {
 			for _, tlsv := range []string{"12", "13"} {
@@ -761,10 +817,6 @@ func c08gen(c *h.Ctx, yield func(*h.Case)) {
 	}
 	// the bytes of a key name: pubToCN / pubFromCN called directly (round 7)
 	c08nameGen(c, yield)
-	// a client with a session cache reconnects (round 7, /repo d941b9f)
-	c08resumeGen(c, yield)
-	// two handshakes with one listener that overlap (round 7)
-	c08interleaveGen(c, yield)
 	// what NewTLSConn wants before it sends anything (round 5)
 	for _, suite := range suitesL {
 		for _, addr := range []string{"tls", "tcp", "local"} {
